@@ -24,7 +24,7 @@ func init() { families["conc"] = runConc }
 const concDeadline = 20 * time.Second
 
 func findOnce(repo rule.Repository, op map[string]any) any {
-	req, err := newHTTPRequest(getStr(op, "method"), getStr(op, "target"), getStr(op, "host"))
+	req, err := newHTTPRequest(getStr(op, "method"), getStr(op, "target"), getStr(op, "host"), getStr(op, "scheme"))
 	if err != nil {
 		return map[string]any{"badrequest": true}
 	}
